@@ -15,8 +15,6 @@ import time
 from .common import CACHE, COQ, ENV, EXTRACT, HARNESS, REPO, VERIF, Broken, extract_build, file_hash, sh
 
 PRIMS = ["u8", "u16", "u32", "u64", "u128", "usize", "i8", "i16", "i32", "i64", "i128", "isize", "f32", "f64", "bool", "char"]
-# user identifiers (numbers shared with coq/extract/driver.ml)
-USER = {"vharness": 1, "vt": 2, "inner": 3, "Nc": 10, "Pz": 11, "Wrap": 12, "Deep": 13, "Pair": 14}
 
 
 class T:
@@ -29,9 +27,10 @@ def leaves():
     out = [T(p, "P%d" % i, 0) for i, p in enumerate(PRIMS)]
     out.append(T("String", "S", 0))
     out.append(T("()", "T()", 0))
-    out.append(T("vharness::vt::Nc", "U(1.2;10;)", 0))
-    out.append(T("vharness::vt::Pz", "U(1.2;11;)", 0))
-    out.append(T("vharness::vt::inner::Deep", "U(1.2.3;13;)", 0))
+    out.append(T("vharness::vt::Nc", "U(vharness.vt;Nc;)", 0))
+    out.append(T("vharness::vt::Pz", "U(vharness.vt;Pz;)", 0))
+    out.append(T("vharness::vt::inner::Deep", "U(vharness.vt.inner;Deep;)", 0))
+    out.append(T("vharness::string::String", "U(vharness.string;String;)", 0))
     return out
 
 
@@ -39,7 +38,7 @@ def grow(rng, pool, depth):
     a = rng.choice(pool)
     b = rng.choice(pool)
     c = rng.choice(pool)
-    k = rng.randrange(13)
+    k = rng.randrange(14)
     d = depth
     if k == 0:
         return T("Box<%s>" % a.rust, "B(%s)" % a.desc, d)
@@ -61,11 +60,21 @@ def grow(rng, pool, depth):
     if k == 8:
         return T("Box<str>", "B(X)", d)
     if k == 9:
-        return T("vharness::vt::Wrap<%s>" % a.rust, "U(1.2;12;%s)" % a.desc, d)
+        return T("vharness::vt::Wrap<%s>" % a.rust, "U(vharness.vt;Wrap;%s)" % a.desc, d)
     if k == 12:
         return T("(%s,)" % a.rust, "T(%s)" % a.desc, d)
     if k == 10:
-        return T("vharness::vt::Pair<%s, %s>" % (a.rust, b.rust), "U(1.2;14;%s,%s)" % (a.desc, b.desc), d)
+        return T("vharness::vt::Pair<%s, %s>" % (a.rust, b.rust), "U(vharness.vt;Pair;%s,%s)" % (a.desc, b.desc), d)
+    if k == 13:
+        # user types whose paths end like the std paths the rewriter shortens
+        m = rng.randrange(4)
+        if m == 0:
+            return T("vharness::vec::Vec<%s>" % a.rust, "U(vharness.vec;Vec;%s)" % a.desc, d)
+        if m == 1:
+            return T("vharness::boxed::Box<%s>" % a.rust, "U(vharness.boxed;Box;%s)" % a.desc, d)
+        if m == 2:
+            return T("vharness::option::Option<%s>" % a.rust, "U(vharness.option;Option;%s)" % a.desc, d)
+        return T("vharness::result::Result<%s, %s>" % (a.rust, b.rust), "U(vharness.result;Result;%s,%s)" % (a.desc, b.desc), d)
     return T("Option<Box<%s>>" % a.rust, "O(B(%s))" % a.desc, d)
 
 
@@ -117,10 +126,12 @@ use std::panic::{catch_unwind, AssertUnwindSafe};
 fn ws(s: &str) -> String { s.chars().filter(|c| !c.is_whitespace()).collect() }
 
 fn look(r: &StaticTypeResolver, spelling: &str) -> Option<(String, usize, usize)> {
-    catch_unwind(AssertUnwindSafe(|| r.dynamic_type_info(spelling))).ok().map(|d| (ws(&d.info.name), d.info.size, d.info.align))
+    // the spelling is handed over as a freshly allocated string, as a schema reader would (never a literal)
+    let owned = String::from(spelling);
+    catch_unwind(AssertUnwindSafe(|| r.dynamic_type_info(&owned))).ok().map(|d| (ws(&d.info.name), d.info.size, d.info.align))
 }
 
-fn row<T>(k: usize, r: &StaticTypeResolver, r2: &StaticTypeResolver, spellings: &[&str]) {
+fn row<T>(k: usize, r: &StaticTypeResolver, r2: &StaticTypeResolver, rf: &StaticTypeResolver, spellings: &[&str]) {
     let name = truc_type_name::<T>();
     let host = HostTypeResolver.type_info::<T>();
     let (wn, wsz, wal) = (ws(&name), std::mem::size_of::<T>(), std::mem::align_of::<T>());
@@ -148,6 +159,14 @@ fn row<T>(k: usize, r: &StaticTypeResolver, r2: &StaticTypeResolver, spellings: 
         let got2 = look(r2, s);
         if got2 != got { bad18.push(format!("after a JSON round trip the lookup of `{}` answers {:?} instead of {:?}", s, got2, got)); }
     }
+    // a table that was NOT produced on this host (every entry: size + 8, alignment * 2) must answer what it holds
+    let foreign = Some((wn.clone(), wsz + 8, wal * 2));
+    let typed_f = catch_unwind(AssertUnwindSafe(|| rf.type_info::<T>())).ok().map(|i| (ws(&i.name), i.size, i.align));
+    if typed_f != foreign { bad18.push(format!("a table registered with size {} align {} answers {:?} to the typed lookup", wsz + 8, wal * 2, typed_f)); }
+    for s in spellings.iter().cloned().take(1).chain(std::iter::once(stdname)) {
+        let got = look(rf, s);
+        if got != foreign { bad18.push(format!("a table registered with size {} align {} answers {:?} to the lookup of `{}`", wsz + 8, wal * 2, got, s)); }
+    }
     println!("ROW {}|{}|{}|{}", k, wn, bad17.join(" ;; "), bad18.join(" ;; "));
 }
 '''
@@ -164,9 +183,12 @@ def write_crate(crate, types, rng):
     body.append("    let json = r.to_json_string().unwrap();")
     body.append("    let r2: StaticTypeResolver = match serde_json::from_str::<BTreeMap<String, DynamicTypeInfo>>(&json) { Ok(x) => StaticTypeResolver::from(x), Err(e) => { println!(\"JSONFAIL {}\", e); StaticTypeResolver::new() } };")
     body.append("    if r2.to_json_string().unwrap() != json { println!(\"JSONDIFF\"); }")
+    body.append("    let mut foreign: BTreeMap<String, DynamicTypeInfo> = serde_json::from_str(&json).unwrap_or_default();")
+    body.append("    for (_, v) in foreign.iter_mut() { v.info.size += 8; v.info.align *= 2; }")
+    body.append("    let rf = StaticTypeResolver::from(foreign);")
     for k, t in enumerate(types):
         sp = [t.rust, spaced(rng, t.rust), strip(t.rust).replace(",", ", ")]
-        body.append("    row::<%s>(%d, &r, &r2, &[%s]);" % (t.rust, k, ", ".join(json.dumps(s) for s in sp)))
+        body.append("    row::<%s>(%d, &r, &r2, &rf, &[%s]);" % (t.rust, k, ", ".join(json.dumps(s) for s in sp)))
     # the standard table agrees with the host for the types it registers
     body.append("    let mut std_table = StaticTypeResolver::new(); std_table.add_all_types();")
     body.append("    let mut nstd = 0usize;")
@@ -174,6 +196,14 @@ def write_crate(crate, types, rng):
         for form in ["%s", "Option<%s>"] + ["[%s; " + str(n) + "]" for n in (1, 2, 3, 5, 10)] + ["Option<[%s; " + str(n) + "]>" for n in (1, 4, 10)]:
             ty = form % p
             body.append("    { let got = look(&std_table, %s); let want = Some((ws(&truc_type_name::<%s>()), std::mem::size_of::<%s>(), std::mem::align_of::<%s>())); nstd += 1; if got != want { println!(\"STD %s|{:?}|{:?}\", got, want); } }" % (json.dumps(ty), ty, ty, ty, ty.replace("{", "{{").replace("}", "}}")))
+    # the same lookups in three passes (forward, backward, forward), every spelling a fresh heap string each time
+    body.append("    let all: Vec<&str> = vec![%s];" % ", ".join(json.dumps(t.rust) for t in types))
+    body.append("    let p1: Vec<_> = all.iter().map(|s| look(&r, s)).collect();")
+    body.append("    let mut p2: Vec<_> = all.iter().rev().map(|s| look(&r, s)).collect(); p2.reverse();")
+    body.append("    let p3: Vec<_> = all.iter().map(|s| look(&r2, s)).collect();")
+    body.append("    for i in 0..all.len() { if p1[i] != p2[i] || p1[i] != p3[i] { println!(\"REPEAT pass|{}|{:?} / {:?} / {:?}\", all[i], p1[i], p2[i], p3[i]); } }")
+    # the same lookups repeated within the process, every spelling a fresh heap string: the answers may not change (C19)
+    body.append("    for round in 0..6usize { for name in [\"u16\", \"u32\", \"u64\", \"i16\", \"i32\", \"i64\", \"f32\", \"f64\", \"u8\", \"i8\"] { let got = look(&r, name); if got.as_ref().map(|g| g.0.as_str()) != Some(name) { println!(\"REPEAT {}|{}|{:?}\", round, name, got); } } }")
     body.append("    println!(\"DONE {}\", nstd);")
     body.append("}")
     open(os.path.join(crate, "src", "main.rs"), "w").write("\n".join(body) + "\n")
@@ -197,7 +227,7 @@ debug = false
 
 def run_e6(tier, seed):
     key = file_hash([os.path.join(REPO, "truc", "src", "record"), os.path.join(REPO, "Cargo.lock"),
-                     os.path.join(HARNESS, "src", "vt.rs"), os.path.join(COQ, "Model", "TypeName.v"), os.path.join(COQ, "extract"),
+                     os.path.join(HARNESS, "src", "vt.rs"), os.path.join(HARNESS, "src", "lib.rs"), os.path.join(COQ, "Model", "TypeName.v"), os.path.join(COQ, "extract"),
                      os.path.join(VERIF, "vlib", "e6.py")], extra="%s/%s" % (tier, seed))
     out = os.path.join(CACHE, "run", "e6-%s" % key)
     resf = os.path.join(out, "result.json")
@@ -251,6 +281,10 @@ def run_e6(tier, seed):
             res["oracle"].append({"property": "C18", "type": line[4:].split("|")[0], "what": "the standard type table disagrees with the host: " + line[4:]})
         elif line.startswith("JSONFAIL") or line.startswith("JSONDIFF"):
             res["oracle"].append({"property": "C18", "type": "-", "what": "the type table does not survive a JSON round trip: " + line})
+        elif line.startswith("REPEAT "):
+            rnd, name, got = line[7:].split("|", 2)
+            if sum(1 for x in res["oracle"] if x["property"] == "C19") < 10:
+                res["oracle"].append({"property": "C19", "type": name, "what": "the same lookup repeated in one process (%s, a fresh string each time) is answered differently: `%s` -> %s" % (rnd, name, got)})
         elif line.startswith("DONE "):
             nstd = int(line[5:])
     if len(names) != len(types):
